@@ -130,7 +130,9 @@ class _STIXBase(collections.abc.Mapping):
         )
 
         custom_props = kwargs.pop('custom_properties', {})
-        if custom_props and not isinstance(custom_props, dict):
+        if custom_props is None:
+            custom_props = {}
+        if not isinstance(custom_props, dict):
             raise ValueError("'custom_properties' must be a dictionary")
 
         # Detect any keyword arguments representing customization.
@@ -140,9 +142,12 @@ class _STIXBase(collections.abc.Mapping):
         extensions = kwargs.get("extensions")
         registered_toplevel_extension_props = {}
         has_unregistered_toplevel_extension = False
-        if extensions:
+        if isinstance(extensions, collections.abc.Mapping):
             for ext_id, ext in extensions.items():
-                if ext.get("extension_type") == "toplevel-property-extension":
+                # (values of the wrong kind are reported when the property
+                # is cleaned, below)
+                if isinstance(ext, collections.abc.Mapping) and \
+                        ext.get("extension_type") == "toplevel-property-extension":
                     registered_ext_class = class_for_type(
                         ext_id, "2.1", "extensions",
                     )
